@@ -152,13 +152,10 @@ def split_cases(ops, impl, model):
     if cid is not None:
         yield cid, cur
 
-def run_micro(comp, seed, ncases, maxops, tag):
-    rundir = os.path.join(CACHE, 'run')
-    os.makedirs(rundir, exist_ok=True)
-    prefix = os.path.join(rundir, f'{tag}-{comp}')
-    rc, out = sh([os.path.join(TARGET, 'debug', 'microdiff'), comp, str(seed), str(ncases), str(maxops), prefix])
-    if rc != 0:
-        infra(f'microdiff {comp} failed rc={rc}:\n{out[-2000:]}')
+def diff_with_model(prefix, comp):
+    """pipe <prefix>.ops to the Lean driver and compare with <prefix>.impl line by line"""
+    if not os.path.exists(prefix + '.ops') or os.path.getsize(prefix + '.ops') <= 1:
+        return None, 0
     with open(prefix + '.ops') as fi:
         rc, mout = sh([os.path.join(LEAN, '.lake', 'build', 'bin', 'driver')], stdin=fi)
     if rc != 0:
@@ -166,7 +163,6 @@ def run_micro(comp, seed, ncases, maxops, tag):
     ops = open(prefix + '.ops').read().splitlines()
     impl = open(prefix + '.impl').read().splitlines()
     model = mout.splitlines()
-    st = parse_stats(prefix + '.stats')
     diverge = None
     if len(model) != len(ops):
         diverge = dict(component=comp, case='?', note=f'model produced {len(model)} lines for {len(ops)} requests')
@@ -175,10 +171,21 @@ def run_micro(comp, seed, ncases, maxops, tag):
             for i, (o, a, b) in enumerate(rows):
                 if a != b:
                     diverge = dict(component=comp, case=cid, index=i, op=o, impl=a, model=b,
-                                   ops=[r[0] for r in rows[:i + 1]])
+                                   ops=[r[0] for r in rows[max(0, i - 40):i + 1]] if comp.startswith('sim:') else [r[0] for r in rows[:i + 1]])
                     break
             if diverge:
                 break
+    return diverge, len(ops)
+
+def run_micro(comp, seed, ncases, maxops, tag):
+    rundir = os.path.join(CACHE, 'run')
+    os.makedirs(rundir, exist_ok=True)
+    prefix = os.path.join(rundir, f'{tag}-{comp}')
+    rc, out = sh([os.path.join(TARGET, 'debug', 'microdiff'), comp, str(seed), str(ncases), str(maxops), prefix])
+    if rc != 0:
+        infra(f'microdiff {comp} failed rc={rc}:\n{out[-2000:]}')
+    st = parse_stats(prefix + '.stats')
+    diverge, _ = diff_with_model(prefix, comp)
     return st, diverge
 
 def replay_lines(comp, lines):
@@ -296,7 +303,7 @@ def main():
             st, div = run_micro(comp, seed, n, maxops, f'{pid}-{tier}')
             stats[comp] = st
             if div:
-                if 'ops' in div:
+                if 'ops' in div and not comp.startswith('sim:'):
                     div['ops_min'] = shrink(comp, div['ops'])
                 broken.append(('correspondence-break', json.dumps(div)[:600]))
                 res.setdefault('divergences', []).append(div)
@@ -380,7 +387,9 @@ def main():
 
 def run_sim(pid, scen, seed, tier, stats, failing, broken):
     import simrun
-    simrun.run(pid, scen, seed, tier, stats, failing, broken, sh, CACHE, TARGET, infra)
+    div = simrun.run(pid, scen, seed, tier, stats, failing, broken, sh, CACHE, TARGET, infra, diff_with_model)
+    if div:
+        broken.append(('correspondence-break', json.dumps(div)[:800]))
 
 if __name__ == '__main__':
     main()
